@@ -38,6 +38,16 @@ def write_tree(root, tree):
         os.utime(p, ns=(m, m))
 
 
+def read_rows(db):
+    """the database file as raw csv rows (header first), read the way the tools read it"""
+    import csv
+    try:
+        with open(db, "r", newline="", encoding="utf-8") as f:
+            return [list(r) for r in csv.reader(f, lineterminator="\n", delimiter="|", quotechar='"')]
+    except (OSError, csv.Error):
+        return []
+
+
 def read_db(path):
     rows = []
     with open(path, newline="", encoding="utf-8") as f:
